@@ -30,12 +30,15 @@ LONG_PLAIN = ["eighteen chars long", "nineteen chars long!", "exactly twenty cha
 INT_STR = ["1", "0", "-7", "42", " 12 ", "1_000", "+5", "٣", "007", "123456789012345678901234567890"]
 FLOAT_STR = ["2.5", "1e5", "nan", "inf", ".5", "-0.0", "1.", "-Infinity", "1E-3", " 3.25"]
 BOOL_STR = ["true", "false", "True", "FALSE", "tRuE"]
+# near-misses of the pseudo-type parsers (plain strings today): whitespace-padded booleans, words the date parsers might take
+NEAR_MISS_STR = [" true", "false ", "\tTrue", "FALSE\n", "yes", "no", "on", "off", "0x10", "1,5", "1e", "--1", "½", "nan%", "truee", "t", "f",
+                 "24:00:00", "2018-13-01", "12-31-1999", "10:30:60", "T10:30", "2018-01-02T", "1.2.3", "1__0", "_1", "1_", "∞", "+-1"]
 DATE_STR = ["2018-01-02", "1999-12-31", "2020-02-29"]
 TIME_STR = ["10:30:00", "23:59:59", "07:05", "12:00:00.123"]
 DATETIME_STR = ["2018-01-02T10:30:00", "2018-01-02T10:30:00Z", "2018-01-02T10:30:00+03:00", "1999-12-31T23:59:59.999"]
 
 SCALAR_KINDS = ["int", "float", "bool", "null", "plain", "hostile", "long", "many", "intstr", "floatstr", "boolstr",
-                "date", "time", "datetime", "bigint", "intfloat"]
+                "date", "time", "datetime", "bigint", "intfloat", "boolnear", "nearmiss"]
 CONTAINER_KINDS = ["list", "obj", "emptyobj", "emptylist", "nulllist", "mix", "listobj", "nested_list", "mapobj"]
 
 
@@ -117,7 +120,7 @@ class Schema:
         prof = self.profile
         if scalar_only or depth > self.max_depth or rng.random() < (0.55 if prof != "tree" else 0.45):
             if prof == "strings":
-                kind = rng.choice(["intstr", "floatstr", "boolstr", "date", "time", "datetime", "plain", "int", "null"])
+                kind = rng.choice(["intstr", "floatstr", "boolstr", "date", "time", "datetime", "plain", "int", "null", "boolnear", "nearmiss"])
             elif prof == "literals":
                 kind = rng.choice(["plain", "plain", "hostile", "long", "many", "intstr", "null"])
             else:
@@ -178,6 +181,11 @@ class Schema:
             return rng.choice(FLOAT_STR)
         if k == "boolstr":
             return rng.choice(BOOL_STR)
+        if k == "boolnear":
+            # boolean-like values only, some of them near-misses: a detector that accepts the near-miss types the field bool
+            return rng.choice(BOOL_STR + NEAR_MISS_STR[:4])
+        if k == "nearmiss":
+            return rng.choice(NEAR_MISS_STR)
         if k == "date":
             return rng.choice(DATE_STR)
         if k == "time":
